@@ -29,7 +29,7 @@ MUT_OPS = ['append', 'insert', 'setitem', 'delitem', 'delslice', 'pop', 'extend'
 SEL_OPS = ['getint', 'getslice', 'getidx']
 ORD_OPS = ['by_label', 'set_order']
 
-RULE = ('operation histories of 6-40 steps on a plain or ordered cadence over a pool of 4-14 mutually compatible frames '
+RULE = ('operation histories of 6-40 (thorough: 6-80) steps on a plain or ordered cadence over a pool of 4-14 mutually compatible frames '
         '(varying tchans/t_start, mixed orientation, a Frame subclass), frames differing in exactly one (or two) of '
         'df/dt/fchans/fmin by a small (1e-7 relative, +1 channel, 0.01 channel) or large amount, twins of such frames, '
         'and non-frames (None, ndarray, str, int, a Cadence, a list, a duck-typed namespace, the Frame class, a dict); '
@@ -531,7 +531,8 @@ def focus_list(ordered):
 
 def gen_cases(seed, tier):
     rng = Rnd(seed, 18)
-    n = 4000 if tier == 'quick' else 120000
+    n = 4000 if tier == 'quick' else 60000
+    max_ops = 40 if tier == 'quick' else 80
     foc = {False: focus_list(False), True: focus_list(True)}
     cases = []
     for i in range(n):
@@ -547,7 +548,7 @@ def gen_cases(seed, tier):
                     dt=float(pick(rng, common.UGLY_DT)), fch1=float(pick(rng, common.UGLY_FCH1)),
                     asc=bool(rng.random() < 0.4))
         st = Steer(rng, pool, ordered, order)
-        nops = int(rng.integers(6, 41))
+        nops = int(rng.integers(6, max_ops + 1))
         weights = dict(append=10, insert=14, setitem=9, delitem=5, delslice=2, pop=5, extend=6, iadd=3, construct=2,
                        setslice=1, extend_str=0.5, extend_frame=0.5, getint=4, getslice=4, getidx=4)
         if ordered:
@@ -761,17 +762,26 @@ class Run:
                 key = 'ordered-insert-index-not-clamped' if clamp else f'spurious-raise:{ctx}'
             elif items != prim.items:
                 key = 'ordered-insert-index-not-clamped' if clamp else f'list-content:{ctx}'
-            elif x is not None and x in m.labels and labels[x] not in prim.labelsets.get(x, {m.labels[x]}):
-                if m.labels[x] is None:
-                    key = 'ordered-insert-index-not-clamped' if clamp else f'label-at-insertion-position:{ctx}'
-                else:
-                    key = f'labelled-frame-relabelled:{name}'
-            elif lab_changed:
-                key = f'other-frame-label-changed:{name}'
             else:
-                key = f'order-string-changed:{name}'
+                badl = [k for k, old in m.labels.items() if labels[k] not in prim.labelsets.get(k, {old})] \
+                    if self.ordered else []
+                placed = [k for k in badl if k in prim.labelsets]
+                detail['wrong_labels'] = {str(k): [m.labels[k], labels[k], sorted(map(str, prim.labelsets.get(k, [])))]
+                                          for k in badl[:6]}
+                if any(m.labels[k] is None for k in placed):
+                    key = 'ordered-insert-index-not-clamped' if clamp else f'label-at-insertion-position:{ctx}'
+                elif placed:
+                    key = f'labelled-frame-relabelled:{name}'
+                elif badl:
+                    key = f'other-frame-label-changed:{name}'
+                else:
+                    key = f'order-string-changed:{name}'
         self.viol(key, **detail)
         m.adopt(items, labels, order)
+        if any(not m.isframe[k] for k in items) or len({m.sig[k] for k in items}) > 1:
+            # a non-frame or an inconsistent frame is inside: the premise of every later step is gone
+            self.R.count('histories_cut_after_broken_guard')
+            self.dead = True
         return False
 
     # -- aggregates against the member frames
@@ -1111,39 +1121,41 @@ def run_case(c, R):
 
 
 def required(tier):
-    b = {'kind:plain': 100, 'kind:ordered': 100, 'compared:len>=2': 2000, 'aggregate:members-with-different-tchans': 1000}
+    # minimums are ~1/5 of what the quick tier reaches on the unchanged tree (seeds 0-4)
+    b = {'kind:plain': 1000, 'kind:ordered': 1000, 'compared:len>=2': 10000, 'aggregate:members-with-different-tchans': 10000}
     for op in MUT_OPS + SEL_OPS + ORD_OPS:
-        b['op:' + op] = 20
+        b['op:' + op] = 80
     for op in ('insert', 'setitem', 'delitem', 'pop', 'getint'):
         for ic in IDX_CLASSES:
-            b[f'idx:{op}:{ic}'] = 10
+            b[f'idx:{op}:{ic}'] = 60
     for op in ('append', 'insert', 'setitem', 'extend', 'iadd', 'construct'):
-        b[f'reject:{op}:non-frame'] = 10
-        b[f'reject:{op}:differs'] = 10
+        b[f'reject:{op}:non-frame'] = 80
+        b[f'reject:{op}:differs'] = 80
     for op in ('append', 'insert', 'setitem'):
         for a in GUARD:
-            b[f'reject-single:{op}:{a}'] = 5
+            b[f'reject-single:{op}:{a}'] = 50
     for a in GUARD:
-        b['reject-attr:' + a] = 30
+        b['reject-attr:' + a] = 400
     for w in NONFRAMES:
-        b['nonframe:' + w] = 5
+        b['nonframe:' + w] = 150
     for f in ('list', 'tuple', 'gen', 'ndarray', 'cadence'):
-        b['form:construct:' + f] = 5
-        b['form:extend:' + f] = 5
-    b.update({'form:extend:self': 5, 'extend:bad-element:later': 10, 'extend:bad-element:first': 5, 'empty-accepts-any': 10,
-              'offer:duplicate': 30, 'label:fresh': 300, 'label:sticky': 100, 'beyond-order:append': 5, 'beyond-order:insert': 5,
-              'by_label:proper': 50, 'by_label:none': 10, 'by_label:labels-differ-from-order-string': 50,
-              'set_order:lt': 5, 'set_order:eq': 5, 'set_order:gt': 5,
-              'order-vs-frames:lt': 3, 'order-vs-frames:eq': 3, 'order-vs-frames:gt': 3,
-              'selection:slice:step1': 20, 'selection:slice:step+': 20, 'selection:slice:step-': 20,
-              'selection:index-list': 20, 'selection:index-ndarray': 20, 'selection:out-of-range-index-array': 10,
-              'selection:>=2-frames': 100})
+        b['form:construct:' + f] = 40
+        b['form:extend:' + f] = 150
+    b.update({'form:extend:self': 100, 'extend:bad-element:later': 100, 'extend:bad-element:first': 100,
+              'empty-accepts-any': 60, 'offer:duplicate': 2000, 'label:fresh': 2000, 'label:sticky': 1500,
+              'beyond-order:append': 200, 'beyond-order:insert': 200,
+              'by_label:proper': 300, 'by_label:none': 300, 'by_label:labels-differ-from-order-string': 500,
+              'set_order:lt': 50, 'set_order:eq': 50, 'set_order:gt': 50,
+              'order-vs-frames:lt': 50, 'order-vs-frames:eq': 50, 'order-vs-frames:gt': 50,
+              'selection:slice:step1': 200, 'selection:slice:step+': 150, 'selection:slice:step-': 150,
+              'selection:index-list': 150, 'selection:index-ndarray': 250, 'selection:out-of-range-index-array': 80,
+              'selection:>=2-frames': 500})
     for ic in IDX_CLASSES:
-        b[f'label:fresh:insert:{ic}'] = 5
+        b[f'label:fresh:insert:{ic}'] = 60
     for ic in ('in+', 'in-', '=-len'):
-        b[f'label:fresh:setitem:{ic}'] = 5
-    return {'buckets': b, 'counters': {'states_compared': 20000, 'aggregate_evals': 20000, 'ops': 20000},
-            'checks': 100000, 'nontrivial': 500}
+        b[f'label:fresh:setitem:{ic}'] = 50
+    return {'buckets': b, 'counters': {'states_compared': 60000, 'aggregate_evals': 60000, 'ops': 60000},
+            'checks': 500000, 'nontrivial': 2000}
 
 
 MANIFEST = {
